@@ -705,10 +705,11 @@ where
         // hit machine limits?
         if machine.max_padding_frac > 0.0 {
             let total = runtime.normal_sent + runtime.padding_sent;
-            if total == 0 {
-                return true;
-            }
-            if runtime.padding_sent as f64 / total as f64 >= machine.max_padding_frac {
+            // a fraction over zero packets counts as below the limit, but the
+            // remaining limits (global fraction, state limit) still apply
+            if total > 0
+                && runtime.padding_sent as f64 / total as f64 >= machine.max_padding_frac
+            {
                 return false;
             }
         }
@@ -716,10 +717,11 @@ where
         // hit global limits?
         if self.max_padding_frac > 0.0 {
             let total = self.padding_sent_packets + self.normal_sent_packets;
-            if total == 0 {
-                return true;
-            }
-            if self.padding_sent_packets as f64 / total as f64 >= self.max_padding_frac {
+            // a fraction over zero packets counts as below the limit, but the
+            // state limit still applies
+            if total > 0
+                && self.padding_sent_packets as f64 / total as f64 >= self.max_padding_frac
+            {
                 return false;
             }
         }
